@@ -55,6 +55,8 @@ def run(res, args):
             xs.append(x)
     for depth in ([50, 300, 1000] if quick else [50, 300, 1000, 5000]):
         xs.append(deep_xml(depth))
+    for _ in range(150 if quick else 6000):
+        xs.append(xmlgen.syncml_xml(rng)); dist['tables'] += 1
     # sources in other declared encodings
     for x in rng.sample(docs, 12):
         for enc in ('ISO-8859-1', 'UTF-16', 'US-ASCII'):
